@@ -152,7 +152,7 @@ theorem C16_variant (U : UnicodeOps) (hU : U.AsciiCorrect) (r : Str) (rule : Rul
     simp only [byRule, applyVariant, toScreamingKebab, toKebab, hsnake]
     exact agrees_ok _ _ (upper_replace_comm _)
 
-/-! ### `lowercase` / `UPPERCASE` (repaired by the `fix:` commit e0753c7)
+/-! ### `lowercase` / `UPPERCASE` (repaired by the `fix:` commit 7d1c05f)
 
 Before the repair the two rules were the Unicode mappings `U.lowerStr` / `U.upperStr`, which agree
 with serde's ASCII mappings on ASCII names only (class `unicode-case-mapping`: variant `É` under
